@@ -147,7 +147,11 @@ func (e *Env) eval(ex ast.Expr) *Value {
 		if p.K != KPtr {
 			e.fail("* of non-pointer")
 		}
-		return e.withView(func(v *State) *Value { return x.load(v, p.P, p.P.Root) })
+		et := p.P.Root
+		if pt, ok := p.T.Underlying().(*types.Pointer); ok && p.T != nil {
+			et = pt.Elem()
+		}
+		return e.withView(func(v *State) *Value { return x.load(v, p.P, et) })
 	case *ast.UnaryExpr:
 		switch n.Op {
 		case token.NOT:
@@ -284,7 +288,13 @@ func (e *Env) object(obj types.Object) *Value {
 		name := "G_" + smtName(o.Pkg().Name()+"_"+o.Name())
 		x.globalDecl(name, fmt.Sprintf("(declare-const %s Int)", name))
 		p := &Pointer{Base: name, Root: o.Type()}
-		return e.withView(func(v *State) *Value { return x.load(v, p, o.Type()) })
+		lv := e.withView(func(v *State) *Value { return x.load(v, p, o.Type()) })
+		if sp := x.eng.prog.Package(o.Pkg()); sp != nil && lv.K == KIface {
+			if g, ok := sp.Members[o.Name()].(*ssa.Global); ok && x.eng.initOnlyErrGlobal(g) {
+				e.st.assume(fmt.Sprintf("(not (= %s 0))", lv.Fs[0].Term))
+			}
+		}
+		return lv
 	}
 	e.fail("object %s not usable in a contract", obj.Name())
 	return nil
@@ -317,7 +327,7 @@ func (e *Env) constVal(c *types.Const) *Value {
 // local resolves a local variable (ssa.Alloc by source name) visible at the loop head.
 func (e *Env) local(name string) *Value {
 	x := e.x
-	var best, undefined *ssa.Alloc
+	var best, undefined, executed *ssa.Alloc
 	fr := e.st.frames[0]
 	for _, b := range e.fn.Blocks {
 		for _, ins := range b.Instrs {
@@ -330,10 +340,16 @@ func (e *Env) local(name string) *Value {
 				continue
 			}
 			if b != e.atBlock && !b.Dominates(e.atBlock) {
+				// declared in a branch that was taken on this path (the variable is out of scope in Go at this
+				// point, but its last value on the path is well defined): used only when nothing in scope matches
+				executed = a
 				continue
 			}
 			best = a // later ones win
 		}
+	}
+	if best == nil && executed != nil && e.proving {
+		best = executed
 	}
 	if best == nil {
 		if undefined != nil && e.proving {
@@ -1006,9 +1022,20 @@ func (e *Env) call(n *ast.CallExpr) *Value {
 			e.fail("pure function %s cannot be bound", fname)
 		}
 		rt := fn.Signature.Results().At(0).Type()
-		name := fmt.Sprintf("pure_%s_0_0", smtName(fc.PkgPath+"."+fc.Key))
-		x.globalDecl(name, fmt.Sprintf("(declare-fun %s (%s) %s)", name, strings.TrimSpace(strings.Repeat("Int ", len(terms))), sortOf(rt)))
-		return leaf(rt, fmt.Sprintf("(%s %s)", name, strings.Join(terms, " ")))
+		if len(terms) == 0 {
+			e.fail("pure function %s without arguments in a contract", fname)
+		}
+		return mkValue(rt, func(l Leaf) string {
+			idx := 0
+			for i, ll := range leaves(rt) {
+				if ll.Path == l.Path {
+					idx = i
+				}
+			}
+			name := fmt.Sprintf("pure_%s_0_%d", smtName(fc.PkgPath+"."+fc.Key), idx)
+			x.globalDecl(name, fmt.Sprintf("(declare-fun %s (%s) %s)", name, strings.TrimSpace(strings.Repeat("Int ", len(terms))), l.Sort))
+			return fmt.Sprintf("(%s %s)", name, strings.Join(x.intTerms(terms, all), " "))
+		})
 	}
 	// spec function?
 	if sf, ok := x.eng.cs.Specs[fname]; ok {
